@@ -2,6 +2,7 @@
 import Rooc.Wire
 import Rooc.Pre.Types
 import Rooc.Pre.Expand
+import Rooc.Pre.Lets
 namespace Rooc.Pre
 open Rooc Sexp
 
@@ -50,6 +51,21 @@ partial def PExp.dec : Sexp → Option (PExp α)
   | .list [.atom "lit", p] => (Prim.dec p).map .lit
   | .list [.atom "un", .atom op, e] => do pure (.un (← UnOp.ofName op) (← PExp.dec e))
   | .list [.atom "bin", .atom op, a, b] => do pure (.bin (← BinOp.ofName op) (← PExp.dec a) (← PExp.dec b))
+  | _ => none
+
+partial def TVal.dec : Sexp → Option (TVal α)
+  | .list (.atom "arr" :: vs) => (optAll (vs.map TVal.dec)).map mkArr
+  | s => (Prim.dec s).map .scalar
+partial def TVal.enc : TVal α → Sexp
+  | .scalar p => p.enc
+  | .arr _ vs => app "arr" (vs.map TVal.enc)
+partial def TE.dec : Sexp → Option (TE α)
+  | .list [.atom "lit", v] => (TVal.dec v).map .lit
+  | .list [.atom "var", .str n] => some (.var n)
+  | .list [.atom "un", .atom op, e] => do pure (.un (← UnOp.ofName op) (← TE.dec e))
+  | .list [.atom "bin", .atom op, a, b] => do pure (.bin (← BinOp.ofName op) (← TE.dec a) (← TE.dec b))
+  | .list (.atom "acc" :: .str n :: idx) => (optAll (idx.map TE.dec)).map (.access n)
+  | .list (.atom "call" :: .str f :: args) => (optAll (args.map TE.dec)).map (.call f)
   | _ => none
 
 def encRes (r : Except OpErr (Prim α)) : Sexp :=
